@@ -40,13 +40,14 @@ type valGen struct {
 	cfg         ValCfg
 	budget      int
 	inlineIface bool // the next interface value drawn is an inlined field
+	inInl       bool // ... of an "inl_struct": not another inl_struct directly inside (duplicate member names)
 	omitIface   bool // the next interface value drawn is an omitempty field
 }
 
 // what an omitempty interface field holds: every flavour of "empty or not" —
 // nil, empty and non-empty strings/slices/maps, IsZeroer structs (value and
 // pointer receiver) that are zero or not, plain structs, pointers to those
-var dynEmptyKinds = []string{"nil", "string", "slice_int", "map_string", "struct", "ptr_struct", "int", "pool:ZeroVal", "pool:ZeroVal", "pool:ZeroPtr", "pool:FolderObj", "ptr_int"}
+var dynEmptyKinds = []string{"nil", "string", "slice_int", "map_string", "struct", "ptr_struct", "int", "pool:ZeroVal", "pool:ZeroVal", "pool:ZeroPtr", "pool:FolderObj", "ptr_int", "pool:ZInt", "pool:ZF64", "pool:ZFlag", "pool:ZU8"}
 
 // DrawValue draws a value for the type.
 func DrawValue(t *rapid.T, typ reflect.Type, cfg ValCfg) GoVal {
@@ -82,7 +83,7 @@ func uintMax(k reflect.Kind) uint64 {
 }
 
 // dynamic types an interface{} value may hold
-var dynKinds = []string{"nil", "bool", "string", "int", "int8", "int64", "uint8", "uint64", "float32", "float64", "slice_iface", "map_iface", "slice_int", "map_string", "struct", "ptr_int", "slice_string", "bytes", "scalar", "slice_scalar", "map_scalar", "gen_struct"}
+var dynKinds = []string{"nil", "bool", "string", "int", "int8", "int64", "uint8", "uint64", "float32", "float64", "slice_iface", "map_iface", "slice_int", "map_string", "struct", "ptr_int", "slice_string", "bytes", "scalar", "slice_scalar", "map_scalar", "gen_struct", "inl_struct"}
 
 // dynamic pool types (fold side): implemented folders — incl. named containers
 // of builtin elements, which the library also knows a conversion fast path for —
@@ -90,7 +91,7 @@ var dynKinds = []string{"nil", "bool", "string", "int", "int8", "int64", "uint8"
 var dynPool = []string{"FolderObj", "FolderPtr", "FolderScalar", "RegT", "FTags", "FCounts", "FAnyMap", "FAnyList", "NMapInt", "NMapAny", "NSliceStr", "NSliceAny", "NBytes", "ZeroVal", "NArr3", "NArrStr", "NSliceN", "NMapN", "NUint64", "NInt16", "FLevel", "FFlag", "RDur", "FDeleg"}
 
 // dynamic types that fold to an object (what an inlined interface must hold)
-var dynObjKinds = []string{"map_iface", "map_string", "struct", "map_scalar", "gen_struct", "gen_struct", "pool:FolderObj", "pool:FCounts", "pool:NMapAny", "ptr_struct", "pool:FDeleg", "pool:FDeleg"}
+var dynObjKinds = []string{"map_iface", "map_string", "struct", "map_scalar", "gen_struct", "gen_struct", "inl_struct", "inl_struct", "pool:FolderObj", "pool:FCounts", "pool:NMapAny", "ptr_struct", "pool:FDeleg", "pool:FDeleg"}
 
 func (g *valGen) dynType(t *rapid.T, depth int) *TypeDesc {
 	k := rapid.SampledFrom(dynKinds).Draw(t, "dyn")
@@ -105,6 +106,10 @@ func (g *valGen) dynObjType(t *rapid.T, depth int) *TypeDesc {
 	if strings.HasPrefix(k, "pool:") && !g.cfg.DynFolders {
 		k = "map_iface"
 	}
+	if k == "ptr_struct" && !g.cfg.DynFolders {
+		// (the pointer may be nil: a refusal, which only fold-side checks expect)
+		k = "struct"
+	}
 	if g.budget <= 0 || depth > 4 {
 		k = "map_string"
 	}
@@ -112,7 +117,7 @@ func (g *valGen) dynObjType(t *rapid.T, depth int) *TypeDesc {
 }
 
 func (g *valGen) dynTypeOf(t *rapid.T, k string, depth int) *TypeDesc {
-	if g.budget <= 0 || depth > 4 {
+	if (g.budget <= 0 || depth > 4) && k != "map_string" {
 		k = "int"
 	}
 	switch k {
@@ -166,6 +171,14 @@ func (g *valGen) dynTypeOf(t *rapid.T, k string, depth int) *TypeDesc {
 		return &TypeDesc{Kind: "ptr", Elem: &TypeDesc{Kind: "int"}}
 	case "struct":
 		return &dynStruct
+	case "inl_struct":
+		// a struct that itself inlines an interface: inlining met again while an
+		// inlined (or any other) interface value is being folded
+		return &TypeDesc{Kind: "struct", Fields: []FieldDesc{
+			{Name: "Pzz", Type: TypeDesc{Kind: "int"}},
+			{Name: "Jzz", Tag: `struct:",inline"`, Type: TypeDesc{Kind: "iface"}},
+			{Name: "Qzz", Type: TypeDesc{Kind: "string"}},
+		}}
 	}
 	return &TypeDesc{Kind: k}
 }
@@ -206,6 +219,8 @@ func (g *valGen) val(t *rapid.T, typ reflect.Type, depth int) GoVal {
 		return GoVal{Ptr: &v}
 	case reflect.Interface:
 		var dt *TypeDesc
+		inInl := g.inInl
+		g.inInl = false
 		if !g.inlineIface && depth < 3 && g.budget > 0 && rapid.IntRange(0, 39).Draw(t, "vdeep") == 0 {
 			// containers nested 2..12 levels inside one interface value (the
 			// unfolder keeps its scratch slots for these on a growing buffer)
@@ -217,13 +232,16 @@ func (g *valGen) val(t *rapid.T, typ reflect.Type, depth int) GoVal {
 		} else if g.omitIface {
 			g.omitIface = false
 			k := rapid.SampledFrom(dynEmptyKinds).Draw(t, "dyne")
-			if k == "pool:ZeroPtr" || (k == "pool:ZeroVal" && rapid.Bool().Draw(t, "dynep")) {
+			if k == "pool:ZeroPtr" || (k != "pool:FolderObj" && strings.HasPrefix(k, "pool:Z") && rapid.Bool().Draw(t, "dynep")) {
 				dt = &TypeDesc{Kind: "ptr", Elem: &TypeDesc{Kind: "pool", Pool: k[5:]}}
 			} else {
 				dt = g.dynTypeOf(t, k, depth)
 			}
 		} else {
 			dt = g.dynType(t, depth)
+		}
+		if inInl && dt != nil && dt.Kind == "struct" && len(dt.Fields) == 3 && dt.Fields[1].Name == "Jzz" {
+			dt = &TypeDesc{Kind: "map", Elem: &TypeDesc{Kind: "iface"}}
 		}
 		if dt == nil {
 			return GoVal{Nil: true}
@@ -290,7 +308,9 @@ func (g *valGen) val(t *rapid.T, typ reflect.Type, depth int) GoVal {
 			// make that the common case (anything else is a refusal)
 			g.inlineIface, g.omitIface = false, false
 			if f := typ.Field(i); f.Type.Kind() == reflect.Interface && ParseTag(f.Tag.Get("struct")).Inline {
-				g.inlineIface = rapid.IntRange(0, 4).Draw(t, "inlobj") > 0
+				// (fold-side checks also get the refusal: anything else in there)
+				g.inlineIface = !g.cfg.DynFolders || rapid.IntRange(0, 4).Draw(t, "inlobj") > 0
+				g.inInl = f.Name == "Jzz"
 			} else if f.Type.Kind() == reflect.Interface && ParseTag(f.Tag.Get("struct")).OmitEmpty {
 				g.omitIface = rapid.IntRange(0, 2).Draw(t, "omitdyn") > 0
 			}
